@@ -1571,6 +1571,11 @@ Vdeletetagref(int32 vkey, /* IN: vgroup key */
     if (vg == NULL)
         HGOTO_ERROR(DFE_BADPTR, FAIL);
 
+    /* check write access (as Vinsert does): a vgroup attached for reading is
+       never written back, the change would be dropped silently */
+    if (vg->access != 'w')
+        HGOTO_ERROR(DFE_BADACC, FAIL);
+
     /* set comparison tag/ref pair */
     ttag = (uint16)tag;
     rref = (uint16)ref;
@@ -1935,6 +1940,11 @@ Vaddtagref(int32 vkey, /* IN: vgroup key */
     vg = v->vg;
     if (vg == NULL)
         HGOTO_ERROR(DFE_BADPTR, FAIL);
+
+    /* check write access (as Vinsert does): a vgroup attached for reading is
+       never written back, the change would be dropped silently */
+    if (vg->access != 'w')
+        HGOTO_ERROR(DFE_BADACC, FAIL);
 
 #ifdef NO_DUPLICATES
     /* SD interface needs duplication if two dims have the same name.
